@@ -109,6 +109,15 @@ def handle : Handler := fun op args =>
         | .ok v => "ok " ++ showRat v
         | .error _ => "err"
       | _, _ => "undef"
+  | "c12.rev" => withArgs (do let n ← pNat; let _ ← pRat; let _ ← pRat; pure n) args fun _ => "ok"
+  | "c12.rowsvals" => withArgs (do let v ← pRats; let rows ← pList pRats; pure (v, rows)) args fun (v, rows) =>
+      match integrateGLvalsRows v rows with
+      | .ok r => "ok " ++ showRat r
+      | .error _ => "err"
+  | "c12.rowsfunc" => withArgs (do let c ← pRats; let rows ← pList pRats; pure (c, rows)) args fun (c, rows) =>
+      match integrateGLruleRows (polyEval c) rows with
+      | .ok r => "ok " ++ showRat r
+      | .error _ => "err"
   | "c12.sumvals" => withArgs (do let v ← pRats; let rw ← pPairs; pure (v, rw)) args fun (v, rw) =>
       match integrateGLvals v rw with
       | .ok r => "ok " ++ showRat r
